@@ -57,13 +57,16 @@ def batch_of(cfg):
             vals = vals[:, 0]              # one observed component given as a 1-D table of n values
         obs = {"pinn_in": jnp.array(cfg["inputs"]), "val": vals, "eq_params": eqp}
     pts = jnp.array(cfg["batch"])
+    # a generated parameter batch on the very key the observations carry rows for (as many rows): inside the observation
+    # term the OBSERVED rows win
+    apb = {"a": jnp.array(cfg["a_pbatch"])[:, None]} if cfg.get("a_pbatch") else None
     if cfg["kind"] == "ode":
         nj = len(xo["inputs"]) if xo else len(cfg["batch"])          # (a parameter batch has one row per observation when both are present)
-        pb = {"junk": jnp.arange(nj, dtype=float)[:, None]} if cfg.get("junk_batch") else None
+        pb = {"junk": jnp.arange(nj, dtype=float)[:, None]} if cfg.get("junk_batch") else apb
         return ODEBatch(temporal_batch=pts[:, 0], param_batch_dict=pb, obs_batch_dict=obs)
     if cfg["kind"] == "statio":
-        return PDEStatioBatch(inside_batch=pts, border_batch=None, obs_batch_dict=obs)
-    return PDENonStatioBatch(times_x_inside_batch=pts, times_x_border_batch=None, obs_batch_dict=obs)
+        return PDEStatioBatch(inside_batch=pts, border_batch=None, param_batch_dict=apb, obs_batch_dict=obs)
+    return PDENonStatioBatch(times_x_inside_batch=pts, times_x_border_batch=None, param_batch_dict=apb, obs_batch_dict=obs)
 
 
 def gen(rng, what, kind):
@@ -103,6 +106,9 @@ def gen(rng, what, kind):
                    arows=[dy(rng) for _ in range(n)] if rng.random() < 0.6 else None)
         cfg["w"] = [rng.randint(0, 4) / 2 for _ in range(nobs)] if rng.random() < 0.5 else rng.randint(1, 6) / 2
         cfg["flat_vals"] = nobs == 1 and n >= 2 and rng.random() < 0.6
+        if cfg["arows"] and rng.random() < 0.5:
+            cfg["a_pbatch"] = [dy(rng, 5, 9) for _ in range(n)]
+            cfg["batch"] = [[dy(rng) for _ in range(nv)] for _ in range(n)]       # as many interior points as rows
     if what != "obs" and rng.random() < 0.5:
         n = rng.randint(1, 4)
         ncol = (cfg["sol"][1] - cfg["sol"][0]) if cfg.get("sol") else len(cfg["upolys"])
@@ -180,6 +186,8 @@ def norm_param_batch_oracle(rng, n):
         dim = rng.choice([1, 2])
         up = prand(rng, dim + 1, 2, 3) or {(0,) * (dim + 1): 1}
         nt, N = rng.randint(1, 4), rng.randint(1, 4)
+        if rng.random() < 0.4:
+            nt = N = rng.randint(2, 4)          # as many samples as times / rows: pairing a row with a SAMPLE instead of a time gives another number
         ts = [dy(rng) + 0.125 * k for k in range(nt)]; arows = [dy(rng) for _ in range(nt)]
         samples = [[dy(rng) for _ in range(dim)] for _ in range(N)]
         Lint = rng.choice([1.0, 2.0, 0.5])
